@@ -301,6 +301,37 @@ Fixpoint chunks (fuel : nat) (bs : list Z) (off : Z) : outcome (list (list Z)) :
          do r <- chunks k bs next; Ok (c :: r)
   end.
 
+(* the identifier octets a value of type [t] must carry: what the encoder writes for it
+   (identifierOf in ber_unmarshal.go) -- constructed bit and universal tag number.  An untagged
+   CHOICE, a pointer and the single-member wrapper have none of their own; a tagged CHOICE sits in a
+   constructed context-tagged wrapper (the number 0 below is not used: [ident_ok] compares with the
+   context tag). *)
+Definition prim_tag (t : ty) (p : fparams) : option (bool * Z) :=
+  match t with
+  | TBits => Some (false, 3) | TOctets => Some (false, 4) | TEnum => Some (false, 10)
+  | TNull => Some (false, 5) | TBool => Some (false, 1) | TInt => Some (false, 2)
+  | TString k => Some (false, if p_strtype p =? 0 then k else p_strtype p)
+  | TSeq _ | TSlice _ => Some (true, seq_tag p)
+  | TChoice _ => match p_tag p with Some _ => Some (true, 0) | None => None end
+  | _ => None
+  end.
+(* class and number: universal, or the context tag of an IMPLICITly tagged member *)
+Definition ident_ok (t : ty) (p : fparams) (tl : tal) : bool :=
+  match prim_tag t p with
+  | None => true
+  | Some (k, w) =>
+    Bool.eqb (t_constr tl) k &&
+    match p_tag p with
+    | Some n => (t_cls tl =? 2) && (t_num tl =? n)
+    | None => (t_cls tl =? 0) && (t_num tl =? w)
+    end
+  end.
+
+(* the constructed context-tagged wrapper of an EXPLICITly tagged member *)
+Definition wrapper_ok (p : fparams) (tl : tal) : bool :=
+  t_constr tl && (t_cls tl =? 2) &&
+  match p_tag p with Some n => t_num tl =? n | None => true end.
+
 Fixpoint dec (t : ty) (p : fparams) (bs : list Z) {struct t} : outcome value :=
   match t with
   | TPtr t' => do v <- dec t' p bs; Ok (VPtr v)
@@ -308,6 +339,7 @@ Fixpoint dec (t : ty) (p : fparams) (bs : list Z) {struct t} : outcome value :=
    let body := fun (p : fparams) (bs : list Z) =>
     do (tl0, toff) <- parse_tl bs;
     if toff + t_len tl0 >? zlen bs then Err else
+    if negb (ident_ok t p tl0) then Err else
     match t with
     | TPtr _ => Panic   (* unreachable *)
     | TBits => do c <- slice_from bs toff; parse_bits c
@@ -384,7 +416,8 @@ Fixpoint dec (t : ty) (p : fparams) (bs : list Z) {struct t} : outcome value :=
    if toff + t_len tl0 >? zlen bs then Err else
    if (match p_tag p with Some _ => true | None => false end) && p_explicit p &&
       negb (match t with TChoice _ => true | _ => false end)
-   then do rest <- slice_from bs toff; body (no_explicit (clear_tag p)) rest
+   then if negb (wrapper_ok p tl0) then Err
+        else do rest <- slice_from bs toff; body (no_explicit (clear_tag p)) rest
    else body p bs
   end.
 
@@ -445,6 +478,7 @@ Section DecBody.
   Definition dec_body (t : ty) (p : fparams) (bs : list Z) : outcome value :=
     do (tl0, toff) <- parse_tl bs;
     if toff + t_len tl0 >? zlen bs then Err else
+    if negb (ident_ok t p tl0) then Err else
     match t with
     | TPtr _ => Panic
     | TBits => do c <- slice_from bs toff; parse_bits c
@@ -486,7 +520,8 @@ Section DecBody.
       if toff + t_len tl0 >? zlen bs then Err else
       if (match p_tag p with Some _ => true | None => false end) && p_explicit p &&
          negb (match t with TChoice _ => true | _ => false end)
-      then do rest <- slice_from bs toff; dec_body t (no_explicit (clear_tag p)) rest
+      then if negb (wrapper_ok p tl0) then Err
+           else do rest <- slice_from bs toff; dec_body t (no_explicit (clear_tag p)) rest
       else dec_body t p bs
     end.
 End DecBody.
